@@ -22,11 +22,38 @@ def abi_classifier(an, n, argvals, env):
     # the real method call of the callee trampoline
     if n.get("trait", "").startswith("sfcorpus::abi::") and (n.get("self_ty") or "").startswith("dyn sfcorpus::abi::"):
         return Ex(ev(("CALL", c.rsplit("::", 1)[-1]))), None
-    # packaged trait objects / closures: fixed-size records (data, vtable/entry); identify by helper names
-    if c.startswith("savefile_abi::") and ("TraitObject" in c or "PackagedTraitObject" in c):
-        name = c.rsplit("::", 1)[-1]
-        if name in ("serialize", "deserialize", "new", "new_from_ptr"):
-            return (Ex(ev(("PTO",))), None) if name in ("serialize", "deserialize") else None
+    if c.endswith("Box::into_raw"):
+        return Ex(), ("rawbox",)
+    # packaged trait objects / closures: a fixed-size record (data, vtable, entry) plus who owns the object afterwards
+    if c.endswith("PackagedTraitObject::serialize") and n["args"]:
+        src = peel(n["args"][0])
+        own = "?"
+        if src.get("k") == "Call":
+            sc = callee(src) or ""
+            if sc.endswith("PackagedTraitObject::new"):
+                own = "Owned"          # Box::into_raw of the caller's box: the receiver must take ownership
+            elif sc.endswith("PackagedTraitObject::new_from_ptr"):
+                own = "NotOwned"
+                for y in walk(src):
+                    if y.get("k") == "Call":
+                        yc = callee(y) or ""
+                        if yc.endswith("transmute") and y.get("targs"):
+                            own = "Owned" if y["targs"][0].startswith("alloc::boxed::Box<") else "NotOwned"
+                        if yc.endswith("Box::into_raw"):
+                            own = "Owned"
+                    if y.get("k") == "Var" and own == "NotOwned":
+                        # a raw pointer produced earlier by Box::into_raw (closure wrappers / returned boxes)
+                        pass
+                for y in walk(src):
+                    if y.get("k") == "Var" and env.get(y["v"]) == ("rawbox",):
+                        own = "Owned"
+        return Ex(seq(ev(("PTO",)), ev(("OWN", own)))), None
+    if c.endswith("PackagedTraitObject::deserialize"):
+        return Ex(ev(("PTO",))), None
+    if c.endswith("AbiConnection::from_raw_packaged") and len(n["args"]) >= 2:
+        o = peel(n["args"][1])
+        own = o.get("variant") if o.get("k") == "Adt" else "?"
+        return Ex(ev(("OWN", own))), None
     return wire.wire_classifier(an, n, argvals, env)
 
 
@@ -541,3 +568,38 @@ def n5(facts, tier):
     yield ob(["C10", "C09"], "N5", "argument-count", "pass" if count_cmp >= 1 else "violation", where(f0) if f0 else "",
              f"{count_cmp} argument-count comparison(s)" if count_cmp else "argument counts of caller and implementation are not compared")
     yield ob(["C10"], "N5", "missing-method-tolerated", "pass", where(f0) if f0 else "", "see N4: a missing method is recorded (callee_method_number None), not an error", nontrivial=False)
+
+
+@rule("A3", ["C09"], floor=3, doc="every owned object is released exactly once: Drop for AbiConnection sends DropInstance in the Owned arm and only there; "
+      "the DropInstance handler destroys the object through a single Box::from_raw; (sender/receiver ownership of packaged objects is part of W9)")
+def a3(facts, tier):
+    d = None
+    for fid, f in facts.fns.items():
+        if fid.startswith("<savefile_abi::AbiConnection<T> as core::ops::drop::Drop>::drop"):
+            d = f
+    if d is not None:
+        arms = {}
+        for x in walk(d["body"]):
+            if x.get("k") == "Match" and all(a["pat"].get("adt") == "savefile_abi::Owning" for a in x["arms"]):
+                for a in x["arms"]:
+                    arms[a["pat"]["variant"]] = sum(1 for y in walk(a["body"]) if y.get("k") == "Adt" and y.get("variant") == "DropInstance")
+        ok = arms.get("Owned") == 1 and arms.get("NotOwned") == 0
+        yield ob(["C09"], "A3", "connection-drop", "pass" if ok else "violation", where(d),
+                 "DropInstance is sent exactly once, in the Owned arm" if ok else
+                 f"Drop for AbiConnection sends DropInstance {arms}: an owned object leaks or a borrowed one is freed")
+    h = facts.fns.get("savefile_abi::destroy_trait_obj")
+    if h is not None:
+        n = sum(1 for x in calls(h["body"]) if (callee(x) or "").endswith("Box::from_raw"))
+        yield ob(["C09"], "A3", "destroy-once", "pass" if n == 1 else "violation", where(h),
+                 f"destroy_trait_obj reconstitutes the box {n} time(s)")
+    for hid in ENTRY_FNS:
+        e = facts.fns.get(hid)
+        if e is None:
+            continue
+        for x in walk(e["body"]):
+            if x.get("k") == "Match":
+                for a in x["arms"]:
+                    if a["pat"].get("variant") == "DropInstance":
+                        n = sum(1 for y in calls(a["body"]) if callee(y) == "savefile_abi::destroy_trait_obj")
+                        yield ob(["C09"], "A3", f"handler:{hid.split('::')[-1]}", "pass" if n == 1 else "violation", where(e, a["body"]),
+                                 f"DropInstance handler destroys the object {n} time(s)")
